@@ -242,13 +242,11 @@ class _Objects:
         if isinstance(e, ast.NamedExpr):
             return self.objs(e.value, st)
         if _np_call(e):
-            if e.func.attr in VIEW_FUNCS and e.args:
+            if e.func.attr in ("asarray", "asanyarray", "ascontiguousarray") and e.args:
                 return self.objs(e.args[0], st) | {("site", e.lineno, e.col_offset)}
             return {("site", e.lineno, e.col_offset)}
-        if isinstance(e, ast.Call) and isinstance(e.func, ast.Attribute) and e.func.attr in VIEW_METHODS:
-            return self.objs(e.func.value, st)
-        if isinstance(e, ast.Subscript) and _basic_index(e.slice):
-            return self.objs(e.value, st)
+        # explicit views (`col = buf[..., 0]`, `flat = m.reshape(-1)`) are written through ON PURPOSE: they are not the accidental
+        # sharing this analysis looks for, and two views of one buffer may be disjoint
         return set()
 
     def tuple_objs(self, e, st, n):
